@@ -1,0 +1,35 @@
+//go:build verif
+
+// Contracts for splitting a frame by leaseholder (read as text by /verif's govc; comment-only).
+
+package frame
+
+//@ import node "github.com/synnaxlabs/synnax/pkg/distribution/node"
+
+//@ inline func (f Frame) Append(key channel.Key, series telem.Series) Frame
+
+//@ # SplitByHost: every visible entry of the frame goes to exactly one of local / remote / free,
+//@ # decided by the leaseholder bits of its key; nothing is fabricated; with no hidden entries the
+//@ # three outputs together have exactly as many entries as the input.
+//@ func (f Frame) SplitByHost(host node.Key) (local Frame, remote Frame, free Frame)
+//@   pragma abstract ShouldExcludeRaw
+//@   requires len(f.RawKeys()) == len(f.RawSeries())
+//@   ensures len(local.RawKeys()) == len(local.RawSeries()) && len(remote.RawKeys()) == len(remote.RawSeries()) && len(free.RawKeys()) == len(free.RawSeries())
+//@   ensures forall j int :: 0 <= j && j < len(local.RawKeys()) ==> local.RawKeys()[j].Leaseholder() == host
+//@   ensures forall j int :: 0 <= j && j < len(free.RawKeys()) ==> free.RawKeys()[j].Leaseholder() != host && free.RawKeys()[j].Leaseholder() == node.KeyFree
+//@   ensures forall j int :: 0 <= j && j < len(remote.RawKeys()) ==> remote.RawKeys()[j].Leaseholder() != host && remote.RawKeys()[j].Leaseholder() != node.KeyFree
+//@   ensures forall i int :: 0 <= i && i < len(f.RawKeys()) && !f.ShouldExcludeRaw(i) && f.RawKeys()[i].Leaseholder() == host ==> (exists j int :: 0 <= j && j < len(local.RawKeys()) && local.RawKeys()[j] == f.RawKeys()[i] && __eq(local.RawSeries()[j], f.RawSeries()[i]))
+//@   ensures forall i int :: 0 <= i && i < len(f.RawKeys()) && !f.ShouldExcludeRaw(i) && f.RawKeys()[i].Leaseholder() != host && f.RawKeys()[i].Leaseholder() == node.KeyFree ==> (exists j int :: 0 <= j && j < len(free.RawKeys()) && free.RawKeys()[j] == f.RawKeys()[i] && __eq(free.RawSeries()[j], f.RawSeries()[i]))
+//@   ensures forall i int :: 0 <= i && i < len(f.RawKeys()) && !f.ShouldExcludeRaw(i) && f.RawKeys()[i].Leaseholder() != host && f.RawKeys()[i].Leaseholder() != node.KeyFree ==> (exists j int :: 0 <= j && j < len(remote.RawKeys()) && remote.RawKeys()[j] == f.RawKeys()[i] && __eq(remote.RawSeries()[j], f.RawSeries()[i]))
+//@   ensures len(local.RawKeys()) + len(remote.RawKeys()) + len(free.RawKeys()) <= len(f.RawKeys())
+//@   ensures (forall i int :: 0 <= i && i < len(f.RawKeys()) ==> !f.ShouldExcludeRaw(i)) ==> len(local.RawKeys()) + len(remote.RawKeys()) + len(free.RawKeys()) == len(f.RawKeys())
+//@   modifies nothing
+//@   loop 0 invariant len(local.RawKeys()) == len(local.RawSeries()) && len(remote.RawKeys()) == len(remote.RawSeries()) && len(free.RawKeys()) == len(free.RawSeries())
+//@   loop 0 invariant forall j int :: 0 <= j && j < len(local.RawKeys()) ==> local.RawKeys()[j].Leaseholder() == host
+//@   loop 0 invariant forall j int :: 0 <= j && j < len(free.RawKeys()) ==> free.RawKeys()[j].Leaseholder() != host && free.RawKeys()[j].Leaseholder() == node.KeyFree
+//@   loop 0 invariant forall j int :: 0 <= j && j < len(remote.RawKeys()) ==> remote.RawKeys()[j].Leaseholder() != host && remote.RawKeys()[j].Leaseholder() != node.KeyFree
+//@   loop 0 invariant forall i int :: 0 <= i && i < __ri(0) && !f.ShouldExcludeRaw(i) && f.RawKeys()[i].Leaseholder() == host ==> (exists j int :: 0 <= j && j < len(local.RawKeys()) && local.RawKeys()[j] == f.RawKeys()[i] && __eq(local.RawSeries()[j], f.RawSeries()[i]))
+//@   loop 0 invariant forall i int :: 0 <= i && i < __ri(0) && !f.ShouldExcludeRaw(i) && f.RawKeys()[i].Leaseholder() != host && f.RawKeys()[i].Leaseholder() == node.KeyFree ==> (exists j int :: 0 <= j && j < len(free.RawKeys()) && free.RawKeys()[j] == f.RawKeys()[i] && __eq(free.RawSeries()[j], f.RawSeries()[i]))
+//@   loop 0 invariant forall i int :: 0 <= i && i < __ri(0) && !f.ShouldExcludeRaw(i) && f.RawKeys()[i].Leaseholder() != host && f.RawKeys()[i].Leaseholder() != node.KeyFree ==> (exists j int :: 0 <= j && j < len(remote.RawKeys()) && remote.RawKeys()[j] == f.RawKeys()[i] && __eq(remote.RawSeries()[j], f.RawSeries()[i]))
+//@   loop 0 invariant len(local.RawKeys()) + len(remote.RawKeys()) + len(free.RawKeys()) <= __ri(0)
+//@   loop 0 invariant (forall i int :: 0 <= i && i < __ri(0) ==> !f.ShouldExcludeRaw(i)) ==> len(local.RawKeys()) + len(remote.RawKeys()) + len(free.RawKeys()) == __ri(0)
